@@ -344,6 +344,7 @@ def rf_sites(fn, structure, scope, sites):
 
 # celpy built-ins that turn a failing argument into an ordinary value (measured on celpy 0.3.0): `string(x)` gives the
 # error's text (also for a map/list holding the error), `type(x)` its class, `x == x` true, `size({"a": x})` 1,
+# `x == "s"` / `x == true` / `x == null` false (`!=` true; comparing with a number, list or map is an error),
 # `has({"a": x}.a)` false, `||` / `&&` absorb by CEL's definition, a conditional does not look at the branch not taken.
 # The evaluation succeeds by celpy's own account — which is the oracle parameter of the model — and no koreo-owned code
 # is involved, so the checks do not alarm on them (stream "absorbed": outcome unconstrained, counted).
@@ -352,7 +353,8 @@ def absorbing_exprs(root):
     return {
         "celpy:string": f"string({m})", "celpy:string+": f'"x: " + string(100 / 0)', "celpy:string(map)": f'string({{"a": {d}}})',
         "celpy:string(list)": f"string([{d}])", "celpy:string(fn)": 'string(split("a", ""))',
-        "celpy:type": f"type({d}) == int", "celpy:eq-self": f"{d} == {d}", "celpy:size(map)": f'size({{"a": {d}}})',
+        "celpy:type": f"type({d}) == int", "celpy:eq-self": f"{d} == {d}", "celpy:eq-string": f'{m} == "gold"',
+        "celpy:ne-string": f'{m} != "gold"', "celpy:eq-null": f"{d} == null", "celpy:size(map)": f'size({{"a": {d}}})',
         "celpy:has": f'has({{"a": {d}}}.a)', "celpy:or": f"true || ({d} == 1)", "celpy:and": f"false && ({d} == 1)",
         "celpy:untaken": f"true ? 1 : {d}",
     }
@@ -588,7 +590,7 @@ def healthy_rf(r, tag=""):
     if r.random() < 0.7:
         ov = {"overlay": {"spec": {"y": "=inputs.n", "deep": {"er": "=inputs.s"}}}}
         if r.random() < 0.5:
-            ov["skipIf"] = "=inputs.n > 100"
+            ov["skipIf"] = r.choice(["=inputs.n > 100", "=inputs.n > 100", "=inputs.n > 0"])
         overlays.append(ov)
     if r.random() < 0.5:
         ov = {"overlayRef": {"kind": "ValueFunction", "name": "ovf" + tag},
@@ -599,6 +601,8 @@ def healthy_rf(r, tag=""):
         aux["ovf"] = healthy_vf(r, overlay_for_rf=True)
     if r.random() < 0.3:
         overlays.append({"overlay": {"metadata": {"labels": {"second": "=inputs.s"}}}})
+    if r.random() < 0.4:
+        overlays.append({"overlay": {"spec": {"extra": "=inputs.n"}}, "skipIf": r.choice(["=inputs.flag", "=!inputs.flag"])})
     r.shuffle(overlays)
     if overlays:
         spec["overlays"] = overlays
@@ -663,6 +667,13 @@ def plant_rf(r, spec, aux):
     else:
         kind, i = site
         ov = spec["overlays"][i]
+        if kind != "skipIf" and "skipIf" in ov:
+            ov["skipIf"] = r.choice(["=inputs.n > 100", "=inputs.flag"])         # the planted step itself applies
+        if i > 0 and r.random() < 0.6:
+            # an EARLIER overlay step is switched off: the failing step keeps its index in `spec.overlays`
+            for j in r.sample(range(i), r.randint(1, i)):
+                spec["overlays"][j]["skipIf"] = r.choice(["=inputs.n > 0", "=!inputs.flag", "=true"])
+            d["earlier_skipped"] = True
         if kind == "overlay":
             if "overlay" in ov:
                 target = ov["overlay"]
@@ -1062,6 +1073,25 @@ def names_location(outcome, site_name) -> bool:
     return bool(hint) and hint in (outcome.get("msg") or "")
 
 
+OVERLAY_SITE = None
+
+
+def overlay_index_wrong(outcome, site_name):
+    """a failure inside overlay step i (its skipIf, overlay, overlayRef inputs or overlayRef Function) must be
+    reported under `spec.overlays[i]` — i being the step's position as written in the spec"""
+    import re
+
+    m = re.search(r"rf\.overlays\[(\d+)\]", site_name)
+    if not m:
+        return None
+    text = f"{outcome.get('msg') or ''} {outcome.get('loc') or ''}"
+    named = re.findall(r"spec\.overlays\[(\d+)\]", text)
+    if named and m.group(1) not in named:
+        return (f"the failure is in overlay step {m.group(1)} of the spec ({site_name}) but the PermFail names "
+                f"spec.overlays[{named[0]}]: {outcome.get('msg')!r}")
+    return None
+
+
 def step_of(site_name):
     return int(site_name.split("]")[0][5:]) if site_name.startswith("step[") else None
 
@@ -1116,6 +1146,9 @@ def complaints_one(case, obs):
                 return f"the expression at {bad[0][0]} failed to evaluate but the outcome is {out['c']}"
             if not names_location(out, bad[0][0]):
                 return f"PermFail for the failure at {bad[0][0]} names no location (location={out.get('loc')!r}, message={out.get('msg')!r})"
+            wrong = overlay_index_wrong(out, bad[0][0])
+            if wrong:
+                return wrong
             if case["kind"] == "rf" and obs["requests"] and obs["events"] and bad[0][0] != "rf.postconditions" \
                     and bad[0][0] != "rf.return":
                 return f"a request was sent although {bad[0][0]} failed to evaluate"
@@ -1141,6 +1174,10 @@ def complaints_one(case, obs):
             return f"the expression at {name} failed to evaluate but step {k} is {c['reason']}"
         if not (c.get("location") or hint_for(name) in (c.get("message") or "")):
             return f"step {k}'s failure for {name} names no location"
+        if sum(1 for n2, _ in bad if step_of(n2) == k) == 1:     # one failure in the step: its index must be the spec's
+            wrong = overlay_index_wrong({"msg": c.get("message"), "loc": c.get("location")}, name)
+            if wrong:
+                return f"step {k}: {wrong}"
     body_bad = [n for n, _ in bad if not n.endswith("step.state")]
     if body_bad and out["c"] != "permFail":
         return f"a step expression failed ({body_bad[0]}) but the workflow outcome is {out['c']}"
